@@ -26,6 +26,7 @@ func init() {
 
 func c08(r *Run) {
 	w := r.W
+	r.optionPlumbed("C08.R4:write-timeout-option-applied", "the write timeout configured on the event loop (WithWriteTimeout) is the value installed as the connection's write timeout: a Flush on a connection created by the loop times out as configured", "WithWriteTimeout", "(*connection).SetWriteTimeout")
 	ro := r.roles()
 	px := protoEffects(w)
 	kF := ro.kFlushing
